@@ -357,7 +357,7 @@ func init() {
 		Assumptions:  []string{"nondeterminism other than map iteration order (time, environment) is pinned by the harness", "MapRange iterators and ranges with non-identifier keys would be left uninstrumented and are listed in bin/c15overlay/sites.json (none today)"},
 		RequiredHits: []string{"orders-enumerated", "non-identity-order", "native-order-repetitions"},
 		Bound:        [2]string{"<= 3 order deviations per execution", "<= 4 order deviations per execution"},
-		BudgetS:      [2]int{100, 900},
+		BudgetS:      [2]int{170, 900},
 		Extra: func(bool) map[string]interface{} {
 			b, err := os.ReadFile(explore.VerifDir + "/bin/c15overlay/sites.json")
 			if err != nil {
